@@ -106,9 +106,9 @@ def const(v):
         if math.isinf(f):
             return mk("inf", (), 1 if f > 0 else -1)
         if math.isnan(f):
-            if CTX.xr is not None:
-                return mk("nan", (), None)
-            raise Unsupported("nan constant")
+            # a nan *constant* may exist (np.where(mask, nan, x) with an all-false mask); outside the extended-real mode
+            # any arithmetic on it, a comparison, or its arrival at the solver is unsupported
+            return mk("nan", (), None)
         return mk("const", (), Fraction(f))
     raise Unsupported("cannot lift %r to a symbolic constant" % (type(v),))
 
